@@ -210,3 +210,86 @@ lemma("base-value/product", "C06",
       lambda b: dict(env=dict(a=b.real("a"), b=b.real("b"), fa=b.real("fa"), fb=b.real("fb"))),
       "(a * b) * (fa * fb) == (a * fa) * (b * fb) and (a / b) * (fa / fb) == (a * fa) / (b * fb)",
       assumes=["fa > 0 and fb > 0 and b != 0"], ns=globals())
+
+
+# ---- array magnitudes: element-wise, operands' arrays not written to, results do not share arrays with operands -----------------
+import numpy as _np
+
+
+def _arrq(bd, p, unit, n=3, err=None):
+    xs = [bd.real(f"{p}{i}") for i in range(n)]
+    arr = bd.call(bd.const(_np.array), bd.list(list(xs)))
+    kw = dict(abse=err) if err is not None else {}
+    return xs, arr, bd.new(Q, arr, U.render(T(unit)), **kw)
+
+
+@spec
+def elems(a):
+    return [v for v in a]
+
+
+for opname, sym in (("__add__", "+"), ("__sub__", "-")):
+    @contract(f"{Q}.{opname}", ["C06", "C07", "C08"], name=f"Quantity.{opname}[array-magnitudes]")
+    def _(c, sym=sym):
+        c.bound = "arrays of three elements (values and the common uncertainty symbolic)"
+        for ua, ub in [("m", "k:m"), ("k:m", "c:m"), ("J", "erg"), ("m", "m")]:
+            def pre(bd, ua=ua, ub=ub):
+                ea, eb = bd.real("ea"), bd.real("eb")
+                xs, arra, a = _arrq(bd, "x", ua, err=ea)
+                ys, arrb, b = _arrq(bd, "y", ub, err=eb)
+                return dict(args=[a, b], env=dict(xs=xs, ys=ys, fa=U.factor(T(ua)), fb=U.factor(T(ub)), qa=a, qb=b, arra=arra, arrb=arrb, ea=ea, eb=eb,
+                                                  erra=bd.getattr(bd.getattr(a, "magnitude"), "error"), errb=bd.getattr(bd.getattr(b, "magnitude"), "error")))
+            c.scenario(f"{ua} {sym} {ub}", pre)
+        c.requires("ea >= 0 and eb >= 0")
+        c.ensures(f"all([near(r * fa, x * fa {sym} y * fb) for r, x, y in zip(elems(result.magnitude.value), xs, ys)]) and len(elems(result.magnitude.value)) == len(xs)", "element-wise-in-base-dimensions")
+        c.ensures("all([near(r * fa, ea * fa + eb * fb) and r >= 0 for r in elems(result.magnitude.error)])", "uncertainties-add")
+        c.ensures("elems(qa.magnitude.value) == xs and elems(qb.magnitude.value) == ys and elems(arra) == xs and elems(arrb) == ys", "operands-keep-their-elements")
+        c.ensures("elems(erra) == [ea for x in xs] and elems(errb) == [eb for y in ys]", "operands-keep-their-uncertainties")
+        c.fresh("result.magnitude.value", "result-array-is-fresh")
+        c.fresh("result.magnitude.error", "result-uncertainty-array-is-fresh")
+        c.no_raise()
+
+
+@contract(f"{Q}.__neg__", ["C07", "C08"], name="Quantity.__neg__[array-magnitude]")
+def _(c):
+    c.bound = "arrays of three elements with a common uncertainty"
+    for u in ["m", "k:g m s^-2"]:
+        def pre(bd, u=u):
+            e = bd.real("e")
+            xs, arr, q = _arrq(bd, "x", u, err=e)
+            return dict(args=[q], env=dict(xs=xs, e=e, q=q, err0=bd.getattr(bd.getattr(q, "magnitude"), "error")))
+        c.scenario(f"-{u}", pre)
+    c.requires("e >= 0")
+    c.ensures("elems(result.magnitude.value) == [-x for x in xs] and elems(result.magnitude.error) == [e for x in xs]", "negated-with-the-same-uncertainty")
+    c.ensures("elems(q.magnitude.value) == xs and elems(err0) == [e for x in xs]", "operand-keeps-elements-and-uncertainties")
+    c.fresh("result.magnitude.value", "result-array-is-fresh")
+    c.fresh("result.magnitude.error", "result-uncertainty-array-is-fresh")
+    c.no_raise()
+
+
+# ---- uncertainties when the units of a result cancel and their factors are folded into the number --------------------------------
+@contract(f"{Q}.__truediv__", ["C06", "C08"], name="Quantity.__truediv__[uncertain-over-exact-units-fold]")
+def _(c):
+    for ua, ub in [("c:m", "m"), ("k:m", "m"), ("g", "k:g"), ("m", "m")]:
+        def pre(bd, ua=ua, ub=ub):
+            e = bd.real("e")
+            a = bd.new(Q, bd.real("x"), U.render(T(ua)), abse=e)
+            b = bd.new(Q, bd.real("k"), U.render(T(ub)))
+            return dict(args=[a, b], env=dict(x=bd.getattr(bd.getattr(a, "magnitude"), "value"), k=bd.getattr(bd.getattr(b, "magnitude"), "value"), e=e, f=U.factor(T(ua)) / U.factor(T(ub))))
+        c.scenario(f"{ua} / {ub}", pre)
+    c.requires("e >= 0 and k != 0")
+    c.ensures("near(result.magnitude.value, x * f / k) and result.baseunits.expression is None", "units-cancel-factor-folded-into-the-number")
+    c.ensures("near(result.magnitude.error, e * f / absv(k)) and result.magnitude.error >= 0", "uncertainty-folded-with-the-same-factor")
+    c.no_raise()
+
+
+@contract(f"{Q}.__init__", ["C06", "C08"], name="Quantity.__init__[uncertain-units-fold]")
+def _(c):
+    for expr, f in [("cm/m", 0.01), ("km*m-1", 1000.0), ("g/kg", 0.001), ("%*cm/m", 0.01)]:
+        def pre(bd, expr=expr, f=f):
+            return dict(args=[bd.obj(Q), bd.real("x"), expr], kwargs=dict(abse=bd.real("e")), env=dict(f=f, kept="%" if "%" in expr else None))
+        c.scenario(expr, pre)
+    c.requires("abse >= 0")
+    c.ensures("near(self.magnitude.value, magnitude * f) and near(self.magnitude.error, abse * f)", "value-and-uncertainty-folded-with-the-same-factor")
+    c.ensures("self.baseunits.expression == kept", "cancelled-units-dropped")
+    c.no_raise()
